@@ -308,6 +308,7 @@ def _tc_spec(cfg, i, path):
 from contracts import c01_queries as Q
 from contracts import c01_dates as D
 from contracts import c01_compkeys as CK
+from contracts import c01_decimals as DC
 
 CONTRACTS = [
     Contract('truth_test_and_not', ['pony.orm.sqltranslation:NumericMixin.nonzero', 'pony.orm.sqltranslation:NumericMixin.negate', 'pony.orm.sqltranslation:StringMixin.nonzero',
@@ -331,4 +332,6 @@ CONTRACTS = [
     Contract('composite_key_navigation_vs_python', ['pony.orm.sqltranslation:JoinedTableRef.make_join', 'pony.orm.sqltranslation:AttrMonad', 'pony.orm.sqltranslation:ObjectAttrMonad',
                                                     'pony.orm.sqltranslation:Subquery.join_table'],
              CK.configs, CK.case, [('equals_python_evaluation_or_refused', CK.spec)], level='bounded', bound=CK.BOUND),
+    Contract('decimal_conditions_vs_python', ['pony.orm.dbproviders.sqlite:SQLiteDecimalConverter.py2sql', 'pony.orm.sqlbuilding:Param.eval', 'pony.orm.sqltranslation:NumericMixin', 'pony.orm.sqltranslation:CmpMonad.getsql'],
+             DC.configs, DC.case, [('equals_python_evaluation_or_refused', DC.spec)], level='bounded', bound=DC.BOUND),
 ]
